@@ -41,6 +41,12 @@ def child_main(argv: list[str]) -> int:
     t0 = time.time()
     rec.cls("interpreter:" + shard.get("config", "default"))
     rec.cls("package_loggers_enabled_for:" + os.environ.get("VMON_LOGLEVEL", "DEBUG"))
+    if os.environ.get("VMON_AMBIENT") == "decimal":
+        import decimal
+
+        decimal.getcontext().prec = 6
+        decimal.getcontext().rounding = decimal.ROUND_DOWN
+        decimal.setcontext(decimal.getcontext())
     try:
         prop = load_prop(pid)
         if shard.get("__replay__"):
@@ -72,6 +78,8 @@ CONFIGS = [
     # warnings promoted to errors (`python -W error`, pytest's filterwarnings=error): applied by harness.parse around the
     # library's main entry point only, see harness.werror
     ("-W error", {"env": {"VMON_WERROR": "1"}}),
+    # the application's ambient numeric state: a thread-wide decimal context with 6 digits and ROUND_DOWN (set in child_main)
+    ("decimal-context-lowered", {"env": {"VMON_AMBIENT": "decimal"}}),
 ]
 
 
